@@ -418,9 +418,33 @@ func oracleFor(op *Sexp, res string) []string {
 		if res != want {
 			bad("target after Unmarshal breaks the merge rules: got %s want %s", res, want)
 		}
+	case "lawsz":
+		if res == "builderr" {
+			return nil
+		}
+		if len(fields) != 6 || fields[0] != "ok" {
+			return []string{"malformed result " + res}
+		}
+		if fields[1] != fields[2] {
+			bad("Size(nil tag) = %s but Append wrote %s bytes (%s elements / entries)", fields[1], fields[2], arg(4))
+		}
+		if fields[3] != fields[4] {
+			bad("Size(tag) = %s but Append(tag) wrote %s bytes (%s elements / entries)", fields[3], fields[4], arg(4))
+		}
+		if fields[5] != "same" {
+			bad("Marshal then Unmarshal of %s elements / entries: %s", arg(4), fields[5])
+		}
 	case "latereg":
 		if res != "ok same" {
 			bad("registering a codec after a failed first use: %s", res)
+		}
+	case "descconc", "jconc", "regintern":
+		if res != "ok" {
+			bad("%s: %s", op.head(), res)
+		}
+	case "bqptr":
+		if res != "ok" {
+			bad("BQTimestampCodec behind a nil pointer / as a map key over several decodes: %s", res)
 		}
 	case "ptrkeys":
 		if res != "ok" {
